@@ -252,3 +252,16 @@ Proof.
   all: unfold enabled in He; btrue;
     match goal with H : Nat.ltb _ _ = true |- _ => apply Nat.ltb_lt in H end; cbn; lia.
 Qed.
+
+(* FinishBuild wakes the goroutines blocked in WaitForBuild.  Whenever a target's finishedBuilding channel is closed its state
+   is final, and unless it was built it is at or above DependencyFailed - what the `t.State() >= DependencyFailed` test of a
+   woken queueTargetAsync relies on.  This is where the order of build.Build's failure path counts (Gen/StateOrder.v:
+   buildfail_prog, SetState(Failed) before FinishBuild): with FinishBuild first the model's LBuildFail closes the channel
+   while the state is still Building, and J (Sched_Inv.v) is no longer inductive. *)
+Theorem woken_sees_final : forall g s, reachable g s -> forall d, fin s d = true ->
+  completed (ts s d) = true /\ (is_built (ts s d) = false -> st_geb (ts s d) dep_failed_threshold = true).
+Proof.
+  intros g s Hr d Hf. pose proof (J_reachable g s Hr d) as HJ. split; [exact (fin_completed s d HJ Hf)|].
+  intros Hb. destruct (st_geb (ts s d) dep_failed_threshold) eqn:E; [reflexivity|].
+  rewrite (fin_below_failed_built s d HJ Hf E) in Hb. discriminate.
+Qed.
